@@ -8,10 +8,13 @@ import (
 	"path/filepath"
 	"sort"
 	"strings"
+	"sync"
 	"testing"
 	"testing/synctest"
+	"time"
 
 	badger "github.com/dgraph-io/badger/v4"
+	"github.com/dgraph-io/badger/v4/vhook"
 	"github.com/dgraph-io/badger/v4/y"
 )
 
@@ -20,6 +23,7 @@ type recState struct {
 	visible map[string]observed
 	all     []expItem // AllVersions dump, forward
 	maxVer  uint64
+	keys    []string
 }
 
 // dumpDB reads the visible state and the AllVersions dump of an open DB.
@@ -192,18 +196,27 @@ func (r *Run) verifyImage(img *Image, idx int) *Violation {
 		durProps = []string{"C09"}
 	}
 	var db *badger.DB
-	func() {
-		defer func() {
-			if p := recover(); p != nil {
-				err = fmt.Errorf("panic in Open: %v", p)
+	var recImgs []*Image
+	var recTracker *DiskTracker
+	if img.Kind == "kill" && !img.Recovery && idx%5 == 2 && os.Getenv("VERIF_NO_RECOVERY_CRASH") == "" {
+		db, err, recTracker = r.openTracked(opt, cfg.Managed, uniqueDirs(ndir, nvdir), img)
+		if recTracker != nil {
+			recImgs = recTracker.Images
+		}
+	} else {
+		func() {
+			defer func() {
+				if p := recover(); p != nil {
+					err = fmt.Errorf("panic in Open: %v", p)
+				}
+			}()
+			if cfg.Managed {
+				db, err = badger.OpenManaged(opt)
+			} else {
+				db, err = badger.Open(opt)
 			}
 		}()
-		if cfg.Managed {
-			db, err = badger.OpenManaged(opt)
-		} else {
-			db, err = badger.Open(opt)
-		}
-	}()
+	}
 	if err != nil {
 		return mk(durProps, "reopen-failed", "Open failed: %v", firstLine(err.Error()))
 	}
@@ -228,8 +241,26 @@ func (r *Run) verifyImage(img *Image, idx int) *Violation {
 	// Open hands recovered memtables to the flusher; wait until that background
 	// work is quiescent so that files-vs-MANIFEST is compared at a stable point.
 	synctest.Wait()
+	st, v := r.checkRecoveredState(db, ndir, img, mk, durProps)
+	if v != nil {
+		return v
+	}
+	// a crash during the recovery itself: every persistence step of this Open was
+	// imaged (sampled first-level images only); each second-level image must
+	// recover to an acceptable state as well
+	for i2, img2 := range recImgs {
+		if v := r.verifyRecoveryImage(recTracker, img2, i2, img, ndir, nvdir, mk, durProps); v != nil {
+			return v
+		}
+	}
+	keys := st.keys
+	return r.probeCommitAfterRecovery(db, st, keys, cfg, mk)
+}
+
+// checkRecoveredState: structure, no garbage, visible state is a commit prefix >= acked.
+func (r *Run) checkRecoveredState(db *badger.DB, ndir string, img *Image, mk func(props []string, rule, format string, args ...interface{}) *Violation, durProps []string) (*recState, *Violation) {
 	if msg := checkStructure(db, ndir); msg != "" {
-		return mk([]string{"C14"}, "structure-after-recovery", "%s", msg)
+		return nil, mk([]string{"C14"}, "structure-after-recovery", "%s", msg)
 	}
 	r.mu.Lock()
 	keys := r.model.AllKeys()
@@ -238,8 +269,9 @@ func (r *Run) verifyImage(img *Image, idx int) *Violation {
 	r.mu.Unlock()
 	st, err := dumpDB(db, keys)
 	if err != nil {
-		return mk(append(durProps, "C09"), "read-after-recovery", "%v", err)
+		return nil, mk(append(durProps, "C09"), "read-after-recovery", "%v", err)
 	}
+	st.keys = keys
 	// (1) no garbage: every recovered version is a write of the model
 	for _, g := range st.all {
 		if strings.HasPrefix(g.Key, "!badger!") {
@@ -255,7 +287,7 @@ func (r *Run) verifyImage(img *Image, idx int) *Violation {
 			}
 		}
 		if !found {
-			return mk(append(durProps, "C09", "C16"), "garbage-after-recovery", "recovered version %q@%d (deleted=%v value=%s) was never written", g.Key, g.Ver, g.Del, short(g.Val))
+			return nil, mk(append(durProps, "C09", "C16"), "garbage-after-recovery", "recovered version %q@%d (deleted=%v value=%s) was never written", g.Key, g.Ver, g.Del, short(g.Val))
 		}
 	}
 	// (2) visible state = some commit-order prefix that contains every acknowledged commit
@@ -282,9 +314,13 @@ func (r *Run) verifyImage(img *Image, idx int) *Violation {
 		}
 	}
 	if !ok {
-		return mk(durProps, "not-a-commit-prefix", "recovered visible state is not the result of any commit prefix of length %d..%d (acknowledged prefix: %s)", minP, len(cs), firstDiff)
+		return nil, mk(durProps, "not-a-commit-prefix", "recovered visible state is not the result of any commit prefix of length %d..%d (acknowledged prefix: %s)", minP, len(cs), firstDiff)
 	}
-	// (3) C11: a new commit must get a timestamp above every stored version
+	return st, nil
+}
+
+// probeCommitAfterRecovery (C11): a new commit must get a timestamp above every stored version.
+func (r *Run) probeCommitAfterRecovery(db *badger.DB, st *recState, keys []string, cfg Config, mk func(props []string, rule, format string, args ...interface{}) *Violation) *Violation {
 	if !cfg.Managed {
 		var pk []byte
 		if len(keys) > 0 {
@@ -394,4 +430,113 @@ func uniqueDirs(a, b string) []string {
 		return []string{a}
 	}
 	return []string{a, b}
+}
+
+// openTracked runs the recovery Open under a sequential scheduler with a disk
+// tracker of its own: every persistence step of the recovery (WAL truncation,
+// flush of the recovered memtables, MANIFEST appends, file deletions) yields a
+// second-level kill image, i.e. the state a second crash during recovery leaves.
+func (r *Run) openTracked(opt badger.Options, managed bool, dirs []string, img *Image) (db *badger.DB, err error, t2 *DiskTracker) {
+	e := NewEngine(Sched{}, []string{"client", "flusher", "compactor", "subcompact", "builder"})
+	e.Sequential = true
+	e.Install()
+	vhook.NowFn = func() (time.Time, bool) { return time.Now(), true }
+	t2 = NewDiskTracker(dirs, false, 1, 16)
+	t2.KillImages = true
+	t2.snapshot = func() (uint64, int, uint64, string) { return img.Acked, img.NCommits, img.Step, "recovery" }
+	t2.Install()
+	e.OnIO = func(gid int64, kind, path string, off, n int64) { t2.OnIO(kind, path, off, n) }
+	t2.Capture = true
+	var mu sync.Mutex
+	opened := false
+	go func() {
+		e.Register("recover")
+		e.Point("client.op")
+		func() {
+			defer func() {
+				if p := recover(); p != nil {
+					err = fmt.Errorf("panic in Open: %v", p)
+				}
+			}()
+			if managed {
+				db, err = badger.OpenManaged(opt)
+			} else {
+				db, err = badger.Open(opt)
+			}
+		}()
+		mu.Lock()
+		opened = true
+		mu.Unlock()
+	}()
+	res := e.Run(func() bool {
+		mu.Lock()
+		defer mu.Unlock()
+		return opened && e.OnlyTickersParked()
+	}, 100000)
+	t2.Capture = false
+	e.Stop()
+	Uninstall()
+	t2.Uninstall()
+	if (res.Deadlock || res.StepBudget) && err == nil && !opened {
+		err = fmt.Errorf("recovery did not finish under the scheduler: %s", res.Dump)
+	}
+	for _, i2 := range t2.Images {
+		i2.Recovery = true
+	}
+	return db, err, t2
+}
+
+// verifyRecoveryImage re-opens one second-level image (plain Open) and applies the
+// same state oracle as for the first crash.
+func (r *Run) verifyRecoveryImage(t2 *DiskTracker, img2 *Image, i2 int, first *Image, ndir, nvdir string, mk0 func(props []string, rule, format string, args ...interface{}) *Violation, durProps []string) *Violation {
+	root, err := os.MkdirTemp(shmDir(), "vimg2-")
+	if err != nil {
+		r.harness = err.Error()
+		return nil
+	}
+	defer os.RemoveAll(root)
+	mapDir := func(d string) string {
+		if d == ndir {
+			return filepath.Join(root, "d")
+		}
+		return filepath.Join(root, "v")
+	}
+	if err := t2.Materialize(img2, mapDir); err != nil {
+		r.harness = "materialize recovery image: " + err.Error()
+		return nil
+	}
+	d2, v2 := mapDir(ndir), mapDir(nvdir)
+	os.MkdirAll(d2, 0o755)
+	os.MkdirAll(v2, 0o755)
+	cfg := r.c.Cfg
+	opt := BadgerOptions(&cfg, d2, v2)
+	mk := func(props []string, rule, format string, args ...interface{}) *Violation {
+		v := mk0(props, rule, format, args...)
+		v.Msg = fmt.Sprintf("second crash during the recovery of this image, at recovery step %s: ", img2.At) + v.Msg
+		return v
+	}
+	var db *badger.DB
+	func() {
+		defer func() {
+			if p := recover(); p != nil {
+				err = fmt.Errorf("panic in Open: %v", p)
+			}
+		}()
+		if cfg.Managed {
+			db, err = badger.OpenManaged(opt)
+		} else {
+			db, err = badger.Open(opt)
+		}
+	}()
+	if err != nil {
+		return mk(durProps, "reopen-failed", "Open failed: %v", firstLine(err.Error()))
+	}
+	defer func() {
+		synctest.Wait()
+		db.Close()
+	}()
+	synctest.Wait()
+	r.probe("fault:recovery_kill_image_verified")
+	_, v := r.checkRecoveredState(db, d2, first, mk, durProps)
+	return v
 }
